@@ -192,6 +192,8 @@ enum Stop {
     /// stopped at the entry of visible call #k (0-based) – the call has not been executed
     AtCall(usize, Sys),
     Exited(i32),
+    /// the traced process announced (marker 111) that it holds its handle and waits for nothing
+    Hold,
 }
 
 struct Traced {
@@ -267,6 +269,8 @@ impl Traced {
                         self.ended = true;
                     } else if regs.rdx >= 100 && regs.rdx < 110 {
                         self.phase = (regs.rdx - 100) as usize;
+                    } else if regs.rdx == 111 {
+                        return Stop::Hold;
                     }
                     continue;
                 }
@@ -504,6 +508,7 @@ fn run_point(s: &Scenario, k: Option<usize>, expect_shape: Option<&str>, prop: &
                     break;
                 }
             }
+            Stop::Hold => {}
             Stop::Exited(code) => {
                 if k.is_some() {
                     // fewer visible calls than in the recorded run
@@ -609,6 +614,7 @@ fn make_dead_victim(s: &Scenario, d: &Domain) -> Result<(), String> {
                     return Ok(());
                 }
             }
+            Stop::Hold => {}
             Stop::Exited(c) => return Err(format!("victim exited ({c}) before it was set up")),
         }
     }
@@ -656,6 +662,7 @@ fn cleaner_point(s: &Scenario, k: Option<usize>, kill_a: bool, expect_shape: Opt
                     break;
                 }
             }
+            Stop::Hold => {}
             Stop::Exited(_) => {
                 a_done = true;
                 break;
@@ -691,7 +698,7 @@ fn cleaner_point(s: &Scenario, k: Option<usize>, kill_a: bool, expect_shape: Opt
         } else {
             loop {
                 match a.run_to_next_visible(&d) {
-                    Stop::AtCall(_, _) => {}
+                    Stop::AtCall(_, _) | Stop::Hold => {}
                     Stop::Exited(code) => {
                         if code != 0 {
                             res.problems.push(format!("c07-cleaner-crashed: the interrupted cleaner exited with {code}"));
@@ -847,6 +854,263 @@ fn atomic_point(s: &Scenario, n: Option<u64>) -> Result<(PointResult, u64), Stri
 }
 
 /// `two-cleaners(pubsub-A-shared)` -> ("two-cleaners", scenario) ; plain scenario names -> ("kill", scenario)
+// ---------------------------------------------------------------------------------------
+// C06 process leg: two processes and one service. The first party (traced) performs `create` or
+// `open_or_create`, holds the handle, drops it; it is paused before visible call k of its service
+// creation or of its service drop, and while it is paused the second party (untraced) runs one
+// complete `create` / `open` / `open_or_create` with other settings. Then the first party is
+// resumed. All single-preemption interleavings of the two calls at system-call granularity.
+// Scenario fields: pattern, role = operation of the first party, mode = operation of the second.
+
+fn race_scenarios(tier: &str) -> Vec<Scenario> {
+    let sc = |p: &str, v: &str, r: &str| Scenario { pattern: p.to_string(), role: v.to_string(), mode: r.to_string() };
+    if tier != "thorough" {
+        // every operation of either party and every pattern class once; sized to finish within the time cap
+        return vec![
+            sc("pubsub", "create", "create"),
+            sc("pubsub", "create", "open"),
+            sc("pubsub", "ooc", "ooc"),
+            sc("pubsub", "ooc", "create"),
+            sc("event", "ooc", "open"),
+            sc("blackboard", "create", "open"),
+        ];
+    }
+    let mut v = Vec::new();
+    for p in ["pubsub", "event", "reqres"] {
+        for vop in ["create", "ooc"] {
+            for rop in ["create", "open", "ooc"] {
+                v.push(sc(p, vop, rop));
+            }
+        }
+    }
+    for rop in ["create", "open"] {
+        v.push(sc("blackboard", "create", rop));
+    }
+    v
+}
+
+/// innermost variant name of an error's Debug text: "PublishSubscribeOpenError(DoesNotExist)" -> "DoesNotExist"
+fn innermost(e: &str) -> String {
+    let t = e.trim().trim_end_matches(')');
+    t.rsplit('(').next().unwrap_or(t).trim().to_string()
+}
+
+fn documented_race_error(op: &str, pattern: &str, e: &str) -> bool {
+    let v = innermost(e);
+    let open = ["DoesNotExist", "IsMarkedForDestruction", "HangsInCreation"];
+    let create = ["AlreadyExists", "IsBeingCreatedByAnotherInstance", "HangsInCreation"];
+    match op {
+        "create" => create.contains(&v.as_str()),
+        // blackboard: the payload segments appear after the static config is finalised; an opener in
+        // between finds them missing, which is what ServiceInCorruptedState documents (DESIGN §9.4)
+        "open" => open.contains(&v.as_str()) || (pattern == "blackboard" && v == "ServiceInCorruptedState"),
+        // open_or_create: its settings are also requirements when it ends up opening
+        _ => open.contains(&v.as_str()) || create.contains(&v.as_str()) || v == "SystemInFlux" || v.starts_with("DoesNotSupportRequestedAmountOf"),
+    }
+}
+
+fn field<'a>(line: &'a str, key: &str) -> Option<&'a str> {
+    line.split_whitespace().find_map(|t| t.strip_prefix(key))
+}
+
+/// pseudo kill point: the second party acts while the first one holds its handle
+const HOLD_POINT: usize = 1_000_000;
+
+fn race_point(s: &Scenario, k: Option<usize>, expect_shape: Option<&str>) -> Result<(PointResult, Vec<Sys>), String> {
+    let t0 = Instant::now();
+    let d = new_domain();
+    let (vop, rop) = (s.role.clone(), s.mode.clone());
+    let base: Vec<String> = vec![s.pattern.clone(), "A".into(), "shared".into(), d.root.clone(), d.prefix.clone(), "svc".into()];
+    let mut res = PointResult { scenario: format!("race({})", s.name()), k: k.unwrap_or(usize::MAX), ..Default::default() };
+    let mut peer = match Survivor::start(&exe("race_peer"), &base) {
+        Ok(p) => p,
+        Err(e) => {
+            remove_domain(&d);
+            return Err(format!("peer start: {e}"));
+        }
+    };
+    let mut first_args = base.clone();
+    first_args.push(vop.clone());
+    let mut first = Traced::spawn(&exe("race_first"), &first_args);
+    let mut peer_result: Option<String> = None;
+    let mut report_hold: Option<String> = None;
+    let mut paused_in_creation = false;
+    let timeout = Duration::from_secs(15);
+    let exit_code;
+    loop {
+        match first.run_to_next_visible(&d) {
+            Stop::AtCall(i, sys) => {
+                if Some(i) == k {
+                    res.shape = sys.shape.clone();
+                    res.phase = PHASES.get(first.phase).unwrap_or(&"?").to_string();
+                    res.ordinal = first.log.iter().filter(|x| x.shape == sys.shape).count();
+                    paused_in_creation = first.phase == 1;
+                    if let Some(e) = expect_shape {
+                        // the length of the serialised static config varies by a byte between runs
+                        let coarse = |x: &str| if x.starts_with("write(fd, len") { "write(fd, len N)".to_string() } else { x.to_string() };
+                        if coarse(e) != coarse(&sys.shape) {
+                            first.kill();
+                            let _ = peer.cmd("QUIT", Duration::from_secs(5));
+                            peer.finish();
+                            remove_domain(&d);
+                            return Err(format!("divergence: visible call {i} is {:?}, recorded run had {:?}", sys.shape, e));
+                        }
+                    }
+                    match peer.cmd(&format!("OP {rop}"), timeout) {
+                        Ok(l) => peer_result = Some(l.trim().to_string()),
+                        Err(e) => res.problems.push(format!("c06-hang: the second party's {rop} did not return while the first party was stopped before its call: {e}")),
+                    }
+                }
+            }
+            Stop::Hold => {
+                if k == Some(HOLD_POINT) {
+                    // sequential: the second party acts while the first one holds its finished handle
+                    res.shape = "(holding the handle)".into();
+                    res.phase = "holding".into();
+                    paused_in_creation = true;
+                    match peer.cmd(&format!("OP {rop}"), timeout) {
+                        Ok(l) => peer_result = Some(l.trim().to_string()),
+                        Err(e) => res.problems.push(format!("c06-hang: the second party's {rop} did not return: {e}")),
+                    }
+                }
+                match peer.cmd("REPORT", timeout) {
+                    Ok(l) => report_hold = Some(l.trim().to_string()),
+                    Err(e) => res.problems.push(format!("c06-hang: REPORT while the first party holds its handle: {e}")),
+                }
+            }
+            Stop::Exited(code) => {
+                exit_code = code;
+                break;
+            }
+        }
+    }
+    let first_out = first.stdout();
+    let first_result = first_out.lines().find_map(|l| l.strip_prefix("FIRST-RESULT ")).unwrap_or("").trim().to_string();
+    if exit_code != 0 || first_result.is_empty() || first_result.starts_with("harness-error") {
+        let _ = peer.cmd("QUIT", Duration::from_secs(5));
+        peer.finish();
+        remove_domain(&d);
+        return Err(format!("first party failed outside the checked call: exit {exit_code}, output {first_out:?}"));
+    }
+    if k.is_some() && res.shape.is_empty() {
+        let _ = peer.cmd("QUIT", Duration::from_secs(5));
+        peer.finish();
+        remove_domain(&d);
+        return Err(format!("divergence: the first party exited before visible call {}", k.unwrap()));
+    }
+    if k.is_none() {
+        // recording run: the second party acts after the first one has left
+        match peer.cmd(&format!("OP {rop}"), timeout) {
+            Ok(l) => peer_result = Some(l.trim().to_string()),
+            Err(e) => res.problems.push(format!("c06-hang: the second party's {rop} did not return: {e}")),
+        }
+    }
+    let report_after = peer.cmd("REPORT", timeout).map(|l| l.trim().to_string());
+    let dropped = peer.cmd("DROP", timeout).map(|l| l.trim().to_string());
+    let _ = peer.cmd("QUIT", Duration::from_millis(200));
+    match peer.finish() {
+        Some(0) => {}
+        Some(c) => res.problems.push(format!("c06-second-party-crashed: exit code {c}")),
+        None => res.problems.push("c06-hang: the second party did not exit".into()),
+    }
+    // ---- oracle
+    let v_ok = first_result.starts_with("ok");
+    let v_knob = field(&first_result, "knob=").map(|x| x.to_string());
+    let r = peer_result.clone().unwrap_or_default();
+    let r_line = r.strip_prefix("RESULT ").unwrap_or("").to_string();
+    let r_ok = r_line.starts_with("ok");
+    let r_knob = field(&r_line, "knob=").map(|x| x.to_string());
+    if !v_ok {
+        let e = first_result.strip_prefix("err ").unwrap_or(&first_result);
+        if !documented_race_error(&vop, &s.pattern, e) {
+            res.problems.push(format!("c06-undocumented-error: the first party's {vop} returned {e}"));
+        }
+    }
+    if peer_result.is_some() && !r_ok {
+        let e = r_line.strip_prefix("err ").unwrap_or(&r_line);
+        if !documented_race_error(&rop, &s.pattern, e) {
+            res.problems.push(format!("c06-undocumented-error: the second party's {rop} returned {e}"));
+        }
+    }
+    if v_ok && r_ok {
+        if paused_in_creation {
+            // both handles were alive at the same time
+            if vop == "create" && rop == "create" {
+                res.problems.push("c06-two-creations: create succeeded in both processes".to_string());
+            }
+            if v_knob != r_knob {
+                res.problems.push(format!("c06-settings-differ: the two users of one service see different settings ({v_knob:?} and {r_knob:?})"));
+            }
+        } else {
+            // the first party was already leaving
+            let want: &[&str] = match rop.as_str() {
+                "create" => &["3"],
+                "open" => &["2"],
+                _ => &["2", "3"],
+            };
+            if !want.contains(&r_knob.as_deref().unwrap_or("")) {
+                res.problems.push(format!("c06-settings: the second party's {rop} returned a service with knob {r_knob:?}"));
+            }
+        }
+    }
+    for (what, knob) in [("first", &v_knob), ("second", &r_knob)] {
+        if let Some(kb) = knob {
+            if kb != "2" && kb != "3" {
+                res.problems.push(format!("c06-settings: the {what} party sees knob {kb}, which nobody asked for"));
+            }
+        }
+    }
+    if let Some(h) = &report_hold {
+        let second_has_handle = r_ok && (paused_in_creation);
+        if (v_ok || second_has_handle) && field(h, "exists=") != Some("true") {
+            res.problems.push(format!("c06-vanished: a handle is alive but does_exist reports {:?}", field(h, "exists=")));
+        }
+        if second_has_handle {
+            if field(h, "port=") != Some("ok") {
+                res.problems.push(format!("c06-half-initialised: the second party's handle cannot create a port: {:?}", field(h, "port=")));
+            }
+            if field(h, "knob=").map(|x| x.to_string()) != r_knob {
+                res.problems.push(format!("c06-settings: the second party's settings changed from {r_knob:?} to {:?}", field(h, "knob=")));
+            }
+        }
+    }
+    match &report_after {
+        Ok(l) => {
+            if r_ok {
+                if field(l, "exists=") != Some("true") {
+                    res.problems.push(format!("c06-premature-removal: the first party left, the second still holds a handle, does_exist reports {:?}", field(l, "exists=")));
+                }
+                if field(l, "port=") != Some("ok") {
+                    res.problems.push(format!("c06-premature-removal: after the first party left the second party's handle cannot create a port: {:?}", field(l, "port=")));
+                }
+                if field(l, "knob=").map(|x| x.to_string()) != r_knob {
+                    res.problems.push(format!("c06-settings: the second party's settings changed from {r_knob:?} to {:?}", field(l, "knob=")));
+                }
+            } else if field(l, "exists=") != Some("false") {
+                res.problems.push(format!("c06-leftover: nobody holds a handle but does_exist reports {:?}", field(l, "exists=")));
+            }
+        }
+        Err(e) => res.problems.push(format!("c06-hang: REPORT after the first party left: {e}")),
+    }
+    match &dropped {
+        Ok(l) => {
+            if field(l, "exists=") != Some("false") {
+                res.problems.push(format!("c06-leftover: all handles are dropped but does_exist reports {:?}", field(l, "exists=")));
+            }
+        }
+        Err(e) => res.problems.push(format!("c06-hang: drop of the second party's handle: {e}")),
+    }
+    res.notes.push(format!("first {vop}: {first_result}; second {rop}: {}", if r_line.is_empty() { "-" } else { &r_line }));
+    res.probe = format!("first={} second={}", first_result.replace(' ', "_"), r_line.replace(' ', "_"));
+    res.leftovers = leftovers(&d);
+    if !res.leftovers.is_empty() {
+        res.problems.push(format!("leftover: {}", res.leftovers.join(", ")));
+    }
+    remove_domain(&d);
+    res.wall_ms = t0.elapsed().as_millis() as u64;
+    Ok((res, first.log.clone()))
+}
+
 fn split_leg(label: &str) -> (String, Scenario) {
     let (leg, name) = match label.split_once('(') {
         Some((l, rest)) => (l.to_string(), rest.trim_end_matches(')').to_string()),
@@ -862,6 +1126,7 @@ fn rerun(label: &str, k: Option<usize>, prop: &str) -> Result<(PointResult, Vec<
         "two-cleaners" => cleaner_point(&scn, k, false, None),
         "cleaner-dies" => cleaner_point(&scn, k, true, None),
         "atomic" => atomic_point(&scn, k.map(|k| k as u64)).map(|(r, _)| (r, Vec::new())),
+        "race" => race_point(&scn, k, None),
         _ => run_point(&scn, k, None, prop),
     }
 }
@@ -927,7 +1192,8 @@ fn main() {
     }
     let t0 = Instant::now();
     let mut machinery: Vec<String> = Vec::new();
-    let scns: Vec<Scenario> = scenarios(&tier, &prop).into_iter().filter(|s| only.as_ref().map(|o| s.name().contains(o.as_str())).unwrap_or(true)).collect();
+    let scns: Vec<Scenario> =
+        if prop == "C06" { Vec::new() } else { scenarios(&tier, &prop).into_iter().filter(|s| only.as_ref().map(|o| s.name().contains(o.as_str())).unwrap_or(true)).collect() };
     // 1. recording runs (also the no-crash baseline: must be clean)
     let mut work: Vec<(Scenario, usize, String)> = Vec::new();
     let mut results: Vec<PointResult> = Vec::new();
@@ -973,6 +1239,31 @@ fn main() {
             }
         }
     }
+    // 1d. C06: process leg
+    let mut race_work: Vec<(Scenario, usize, String)> = Vec::new();
+    let mut race_outcomes: BTreeMap<String, usize> = BTreeMap::new();
+    if prop == "C06" {
+        for s in race_scenarios(&tier) {
+            if only.as_ref().map(|o| !format!("race({})", s.name()).contains(o.as_str())).unwrap_or(false) {
+                continue;
+            }
+            match race_point(&s, None, None) {
+                Ok((r, log)) => {
+                    rows.push(json!({"scenario": format!("race({})", s.name()), "visible_calls_of_the_first_party": log.len(), "baseline_problems": r.problems, "baseline": r.notes}));
+                    if !r.problems.is_empty() {
+                        machinery.push(format!("baseline (sequential) of race({}) is not clean: {:?}", s.name(), r.problems));
+                    }
+                    for (k, sys) in log.iter().enumerate() {
+                        race_work.push((s.clone(), k, sys.shape.clone()));
+                    }
+                    race_work.push((s.clone(), HOLD_POINT, "(holding the handle)".to_string()));
+                    results.push(r);
+                }
+                Err(e) => machinery.push(format!("recording run of race({}) failed: {e}", s.name())),
+            }
+        }
+    }
+    let race_work = Arc::new(race_work);
     // 1c. C04: atomic-operation kill points
     let mut atomic_work: Vec<(Scenario, u64)> = Vec::new();
     if prop == "C04" && mc_exe("crash_child_mc").exists() {
@@ -1013,13 +1304,16 @@ fn main() {
     let deadline = Instant::now() + Duration::from_secs(if tier == "thorough" { 1500 } else { 50 });
     let mut hs = Vec::new();
     for _ in 0..jobs {
-        let (next, work, collected, prop, cleaner_work, atomic_work) = (next.clone(), work.clone(), collected.clone(), prop.clone(), cleaner_work.clone(), atomic_work.clone());
+        let (next, work, collected, prop, cleaner_work, atomic_work, race_work) = (next.clone(), work.clone(), collected.clone(), prop.clone(), cleaner_work.clone(), atomic_work.clone(), race_work.clone());
         hs.push(std::thread::spawn(move || loop {
             let i = next.fetch_add(1, Ordering::SeqCst);
-            if i >= work.len() + cleaner_work.len() + atomic_work.len() || Instant::now() > deadline {
+            if i >= work.len() + cleaner_work.len() + atomic_work.len() + race_work.len() || Instant::now() > deadline {
                 break;
             }
-            let r = if i < work.len() {
+            let r = if i >= work.len() + cleaner_work.len() + atomic_work.len() {
+                let (s, k, shape) = &race_work[i - work.len() - cleaner_work.len() - atomic_work.len()];
+                race_point(s, Some(*k), Some(shape)).map(|(r, _)| r)
+            } else if i < work.len() {
                 let (s, k, shape) = &work[i];
                 run_point(s, Some(*k), Some(shape), &prop).map(|(r, _)| r)
             } else if i < work.len() + cleaner_work.len() {
@@ -1036,7 +1330,7 @@ fn main() {
         let _ = h.join();
     }
     let done = collected.lock().unwrap().len();
-    let complete = done == work.len() + cleaner_work.len() + atomic_work.len();
+    let complete = done == work.len() + cleaner_work.len() + atomic_work.len() + race_work.len();
     for r in collected.lock().unwrap().drain(..) {
         match r {
             Ok(r) => results.push(r),
@@ -1046,6 +1340,9 @@ fn main() {
     // 3. violations grouped by signature
     let mut by_sig: BTreeMap<String, Vec<&PointResult>> = BTreeMap::new();
     for r in &results {
+        if prop == "C06" {
+            *race_outcomes.entry(format!("{} {}", r.scenario, r.probe)).or_insert(0) += 1;
+        }
         if r.problems.is_empty() {
             continue;
         }
@@ -1054,7 +1351,11 @@ fn main() {
         let mut ps: Vec<String> = r.problems.clone();
         ps.sort();
         ps.dedup();
-        let sig = format!("ptx|{}|killed-in={}|{}", prop, if r.k == usize::MAX { "no-crash" } else { r.phase.as_str() }, ps.join(" ; "));
+        let sig = if prop == "C06" {
+            format!("ptx|C06|{}|paused-in={}|{}", r.scenario, if r.k == usize::MAX { "sequential" } else { r.phase.as_str() }, ps.join(" ; "))
+        } else {
+            format!("ptx|{}|killed-in={}|{}", prop, if r.k == usize::MAX { "no-crash" } else { r.phase.as_str() }, ps.join(" ; "))
+        };
         by_sig.entry(sig).or_default().push(r);
     }
     let mut violations: Vec<Value> = Vec::new();
@@ -1104,7 +1405,14 @@ fn main() {
         .collect();
     let part = json!({
         "engine": "ptx", "harness": "ptx", "property": prop, "tier": tier,
-        "rule": "one case = (scenario, visible system call k of the victim): the victim is run under ptrace to the entry of call k, probed while stopped, killed with SIGKILL there; then the survivor detects, cleans up, exercises its ports with a new peer and shuts down, and the domain is scanned for leftovers. Every visible call of every scenario is a kill point (plus the no-crash baseline). A case is distinct by (scenario, call shape, ordinal).",
+        "rule": if prop == "C06" {
+            "two processes, one service name (ipc variant: files + shared memory): the first (traced) performs create | open_or_create with settings A, holds the handle, drops it; one case = (pattern, its operation, operation of the second process: create | open | open_or_create with settings B, visible system call k of the first process' creation or drop): the first process is stopped at the entry of call k, the second runs its complete operation, the first is resumed - every single-preemption interleaving of the two calls at system-call granularity, plus the sequential baseline. Checked: at most one creation among overlapping users, equal settings among overlapping users, only documented errors, a handle can create a port, does_exist while a handle is alive / after the last one is gone, nothing left in the domain."
+        } else {
+            "one case = (scenario, visible system call k of the victim): the victim is run under ptrace to the entry of call k, probed while stopped, killed with SIGKILL there; then the survivor detects, cleans up, exercises its ports with a new peer and shuts down, and the domain is scanned for leftovers. Every visible call of every scenario is a kill point (plus the no-crash baseline). A case is distinct by (scenario, call shape, ordinal)."
+        },
+        "race_points_planned": race_work.len(),
+        "distinct_outcomes": race_outcomes.len(),
+        "outcomes": race_outcomes,
         "evaluations": points,
         "distinct_nontrivial": shapes.len(),
         "scenarios": rows,
